@@ -7,7 +7,55 @@ import sys
 ROOT = os.path.dirname(os.path.dirname(os.path.abspath(__file__)))
 
 
+def compact():
+    """one line per change: id, property's own check result, other checks that caught it, signature"""
+    out = ["| id | file(s) | caught by (quick; thorough where noted) | first signature | missed before strengthening |", "|---|---|---|---|---|"]
+    for sid in sorted(os.listdir(os.path.join(ROOT, "seeded"))):
+        mp = os.path.join(ROOT, "seeded", sid, "meta.json")
+        if not os.path.exists(mp):
+            continue
+        m = json.load(open(mp))
+        det = m.get("detection", {})
+        q, t = det.get("quick", {}), det.get("thorough", {})
+        caught = ",".join(q.get("caught_by", [])) or ("**none**" if q else "not run")
+        if t.get("caught_by"):
+            caught += " / thorough: " + ",".join(t["caught_by"])
+        sig = ""
+        for d in (q, t):
+            for p in d.get("caught_by", []):
+                ss = d["checks"][p]["signatures"]
+                if ss and not sig:
+                    sig = ss[0].split(": ")[0][:80]
+        files = ", ".join(os.path.basename(f) for f in (m.get("files_touched") or []))
+        missed = "yes" if (m.get("note") or "").startswith(("MISSED", "INCONCLUSIVE")) else ""
+        out.append(f"| {sid} | {files} | {caught} | `{sig}` | {missed} |")
+    print("\n".join(out))
+    return 0
+
+
+def design():
+    """rewrite the table between the markers in DESIGN.md"""
+    import io
+    import contextlib
+    buf = io.StringIO()
+    with contextlib.redirect_stdout(buf):
+        compact()
+    p = os.path.join(ROOT, "DESIGN.md")
+    s = open(p).read()
+    a = s.index("<!-- SEEDED-TABLE-BEGIN")
+    a = s.index("-->", a) + 3
+    b = s.index("<!-- SEEDED-TABLE-END -->")
+    s = s[:a] + "\n" + buf.getvalue() + s[b:]
+    open(p, "w").write(s)
+    print("DESIGN.md table updated")
+    return 0
+
+
 def main():
+    if "--design" in sys.argv:
+        return design()
+    if "--compact" in sys.argv:
+        return compact()
     rows = []
     for sid in sorted(os.listdir(os.path.join(ROOT, "seeded"))):
         mp = os.path.join(ROOT, "seeded", sid, "meta.json")
